@@ -40,6 +40,8 @@ Checks(x) ==
             << <<"registered-id-usable", x.a < RegCount(comps) /\ x.b < RegCount(comps) /\ x.created
                                           /\ Len(x.steps) = 12
                                           /\ \A i \in DOMAIN x.steps : ~x.steps[i].panic /\ x.steps[i].val = "true">> >>
+      [] x.op = "reset" ->
+            << <<"registrations-survive-world-reset", ~x.res.panic /\ SnapOK(x.snap, comps, ress)>> >>
       [] OTHER -> <<>>
 
 Init == l = 1 /\ comps = RegInit /\ ress = RegInit /\ viol = <<>> /\ nchk = 0
